@@ -267,6 +267,31 @@ static void cancel_run(int run, vt::rng& g)
     vt::ev("NextWeights").i("run", run).i("k", 0).i("usedId", 0).i("refId", 0).i("sumZero", 0).i("moved", 0).emit(); // no cancelling sample found
 }
 
+// channels with identical densities: the adjustment data of all channels are equal in every iteration, the refinement still raises the
+// channels below the minimum weight and normalises again - the weights keep moving towards their fixed point
+template <typename T>
+static void flat_run(int run, T w_small, T m, T beta)
+{
+    auto map = [](std::size_t, std::vector<T> const& r, std::vector<T>& c, std::vector<std::size_t> const&, std::vector<T>& d, hep::multi_channel_map) {
+        c[0] = r[0];
+        d[0] = T(1);
+        d[1] = T(1);
+        return T(1);
+    };
+    auto fn = [](hep::multi_channel_point<T> const& p) { return T(1) + p.coordinates()[0]; };
+    auto chk = hep::make_multi_channel_chkpt<T>(std::vector<T>{w_small, T(1) - w_small}, m, beta);
+    using C = decltype(chk);
+    auto res = hep::multi_channel(hep::make_multi_channel_integrand<T>(fn, 1, map, 1, 2), std::vector<std::size_t>(4, 100), chk, hep::callback<C>(hep::callback_mode::silent));
+    for (std::size_t k = 0; k != res.results().size(); ++k)
+    {
+        auto const& r = res.results()[k];
+        auto const& next = k + 1 != res.results().size() ? res.results()[k + 1].channel_weights() : res.channel_weights();
+        vt::ev("NextWeights").i("run", run).i("k", (long long) k).i("usedId", vt::ids().id(vt::hexvec(next)))
+            .i("refId", vt::ids().id(vt::hexvec(hep::multi_channel_refine_weights(r.channel_weights(), r.adjustment_data(), m, beta))))
+            .i("dataEqual", r.adjustment_data()[0] == r.adjustment_data()[1] ? 1 : 0).emit();
+    }
+}
+
 int main(int argc, char** argv)
 {
     if (argc < 4) return 2;
@@ -287,6 +312,7 @@ int main(int argc, char** argv)
     any_cases<float>(thorough ? 600 : 150, g);
     any_cases<double>(thorough ? 600 : 150, g);
     any_cases<long double>(thorough ? 600 : 150, g);
+    flat_run<float>(9100, 0.02f, 0.1f, 0.25f); flat_run<double>(9101, 0.02, 0.1, 0.25); flat_run<long double>(9102, 0.05L, 0.2L, 0.5L);
     cancel_run<float>(9000, g); cancel_run<double>(9001, g); cancel_run<long double>(9002, g);
     for (int run = 0; run != (thorough ? 30 : 9); ++run)
     {
